@@ -8,6 +8,7 @@ pymalloc size classes held and released, temporaries churned, deep recursion,
 garbage collections.
 """
 import copy
+import gc
 import random
 
 from sim import allocsim, core, histsim
@@ -849,7 +850,21 @@ def execute(case):
             keep = []
             new = None
             try:
-                for _ in range(40):
+                if old_id is not None:
+                    # the freed block sits somewhere down the allocator's free list: dig for it
+                    # (allocsim.aim) after a first build has shown what is going to be allocated
+                    gc.collect()
+                    shape = build(op["new"])
+                    typ, nitems = type(shape), (tuple.__len__(shape) if isinstance(shape, tuple) else None)
+                    del shape
+                    _addr, held = allocsim.aim(typ, nitems, {old_id}, tries=1500)
+                    held[-1] = None
+                    new = build(op["new"])
+                    del held
+                    if id(new) != old_id:
+                        keep.append(new)
+                        new = None
+                for _ in range(40 if new is None else 0):
                     new = build(op["new"])
                     if old_id is None or id(new) == old_id:
                         break
